@@ -10,3 +10,4 @@ def run(ck):
     gradient.r4_sentinel_contents(ck, P)
     gradient.r6_transform_column(ck, P)
     gradient.r7_projective_split(ck, P)
+    gradient.r8_position_advances(ck, P)
